@@ -38,9 +38,9 @@ def dec2x (mask b : Nat) (x : Int) : Except EErr (List Char) :=
     .ok (toBase b (if x < 0 then x + 2 * mask else x).toNat)
   else .error .num
 
-/-- zero padding of `_dec2x` when `places` is given -/
+/-- zero padding of `_dec2x` when `places` is given (at most 10 places) -/
 def withPlaces (places : Int) (s : List Char) : Except EErr (List Char) :=
-  if places ≥ s.length then .ok (List.replicate (places.toNat - s.length) '0' ++ s) else .error .num
+  if places ≥ s.length ∧ places ≤ 10 then .ok (List.replicate (places.toNat - s.length) '0' ++ s) else .error .num
 
 /-- `_x2dec(x, base)` on a digit string of at most 10 characters (the filter `_parseX`):
 `(v & ~mask) - (mask & v)`; `mask` is a power of two and `v < 2 * mask`, so the bit test is
